@@ -719,7 +719,10 @@ def main(tier):
 def replay_file(path):
     with open(path) as f:
         obj = json.load(f)
-    if obj["replay"].get("kind") == "text_output":
+    if obj["replay"].get("kind") == "emission_order":
+        from vf.checks import c06s
+        ok, observed = c06s.replay_order()
+    elif obj["replay"].get("kind") == "text_output":
         from vf.checks import c06s
         r = obj["replay"]
         ok, observed = c06s.replay({"kind": r["field_kind"], "attr": r["attr"], "expected": r["expected"]})
